@@ -253,6 +253,37 @@ def filter_path(R, ctx):
     R.require(rid, "floor", n >= 2, ctx.where(fn), "%d filter predicate calls" % n)
 
 
+def skip_all(R, ctx, rid="C20.skip-all"):
+    """Only the top-level filters can take a file out of the pipeline as a whole."""
+    from .. import guards
+    lib = ctx.lib
+    M = guards.Mentions(ctx.an)
+    R.rule(rid, "in the function that runs the rules on a work item, marking the item done (WorkStatus::done) is never control-dependent on a "
+                "condition that consults a per-rule filter (RuleMetadata::should_apply, directly or through a helper): a file that every "
+                "rule's filters exclude is still parsed, generated with the configured generator and written, exactly as if those rules were "
+                "not in the list; only the top-level filters skip a file entirely")
+    fn = lib.fn("frontend::worker::Worker::apply_rules")
+    if fn is None:
+        c = [f for f in lib.fn_list if thir.body_of(f) and any(x.get("fn") == "rules::Rule::process" for x in thir.calls(f)) and "frontend" in f["path"]]
+        fn = c[0] if len(c) == 1 else None
+    if not R.require(rid, "anchor:apply_rules", fn is not None, "", "the function calling Rule::process on a work item"):
+        return
+    fa = ctx.an.fa(fn["path"])
+    per_rule = lambda n: n.get("k") in ("Call", "Zst") and n.get("fname") == "should_apply" and "RuleMetadata" in (callee_of(n) or n.get("fn") or "")
+    top = lambda n: n.get("k") in ("Call", "Zst") and n.get("fname") == "should_apply_rule"
+    dones = [c for c in thir.calls(fn) if c.get("fname") == "done" and "WorkStatus" in (callee_of(c) or c.get("fn") or "")]
+    if not R.require(rid, "anchor:done", len(dones) >= 2, ctx.where(fn), "%d places mark the item done" % len(dones)):
+        return
+    n_top = 0
+    for i, c in enumerate(dones):
+        conds = list(guards.conditions_of(fa, c))
+        bad = [cond for cond, kind in conds if M.mentions(fa, cond, per_rule, 3)]
+        n_top += any(M.mentions(fa, cond, top, 1) for cond, kind in conds)
+        R.ob(rid, "apply_rules|done@%d|not-under-a-rule-filter" % (i + 1), not bad, ctx.where(fn, c.get("ln")),
+             "independent of the per-rule filters" if not bad else "the item is marked done (nothing generated, nothing written) under a condition that asks the rules' own filters")
+    R.require(rid, "positive-control", n_top >= 1, ctx.where(fn), "%d early exits under the top-level filter" % n_top)
+
+
 def run(R, ctx):
     R.explanation = (
         "The two filter predicates are evaluated (sa/peval.py) on all 7x7 apply/skip list states built from a matching and a non-matching "
@@ -265,3 +296,4 @@ def run(R, ctx):
     deser(R, ctx)
     glob(R, ctx)
     filter_path(R, ctx)
+    skip_all(R, ctx)
